@@ -109,11 +109,14 @@ def run_case(case):
     expand(base, case["strategy"])
     ident = {v: v for v in names}
     ref = canon(base, ident)
-    fails, tags = [], []
+    fails, tags, diffs = [], [], []
     # base presentation against the Lean model
     orc = Oracle(ni)
     orc.ask("full", "SDINIT")
     orc.ask("bfs", "BFS 0 - -")
+    fv = names[case["flip"] % len(names)]
+    orc.ask("fliptt", "FLIPTT " + "".join("1" if v == fv else "0" for v in names))
+    orc.ask("states", "STATES")
     orc.run()
     model = abstract(orc.get("bfs").split(" ", 1)[1])
     if case["strategy"] not in ("scc", "block") and abstract(common.dump_sd(base, ni)) != model:
@@ -175,7 +178,6 @@ def run_case(case):
         lines.append(f"{v}, {tt_expr(bn, v, names, 0)}")
     compare("full-dnf", SuccessionDiagram.from_rules("\n".join(lines)), ident)
     # 4. one variable encoded by its negation
-    fv = names[case["flip"] % len(names)]
     nv = "neg_" + fv
     flines = []
     for l in txt.split("\n"):
@@ -190,7 +192,25 @@ def run_case(case):
             flines.append(f"{tgt}, {expr2.strip()}")
     back = dict(ident)
     back[nv] = fv
-    compare("negated-variable", SuccessionDiagram.from_rules("\n".join(flines)), back, flipvar=fv)
+    fsd = SuccessionDiagram.from_rules("\n".join(flines))
+    compare("negated-variable", fsd, back, flipvar=fv)
+    # the rewritten text denotes Lean's `flipExprs` of the base network (theorems ofExprs_flipExprs, attr_flip):
+    # truth tables of the presentation (evaluated by Lean), re-indexed to the base variable order
+    ni2 = common.NetInfo(fsd.network)
+    o2 = Oracle(ni2)
+    o2.ask("tt", "TT")
+    o2.ask("states", "STATES")
+    o2.run()
+    col2 = {st: k for k, st in enumerate(o2.get("states").split())}
+    tt2 = dict(zip(ni2.names, o2.get("tt").split()))
+    want = dict(zip(names, orc.get("fliptt").split()))
+    for v in names:
+        pv = nv if v == fv else v
+        got_tt = "".join(tt2[pv][col2["".join(st[names.index(back[w])] for w in ni2.names)]] for st in orc.get("states").split())
+        if got_tt != want[v]:
+            diffs.append({"stream": "ORACLE negated-variable presentation vs Lean flipExprs", "variable": v, "impl": got_tt, "model": want[v]})
+            break
+    tags.append("flipExprs-tie")
     # 5. other text formats
     compare("aeon-text", SuccessionDiagram.from_rules(bn.to_aeon(), format="aeon"), ident)
     compare("sbml-text", SuccessionDiagram.from_rules(bn.to_sbml(), format="sbml"), ident)
@@ -224,4 +244,4 @@ def run_case(case):
                     backs = {sn[i]: names[i] for i in range(len(names))}
                     compare("sanitized", SuccessionDiagram(sbn), backs)
                 tags.append("sanitization")
-    return {"fails": fails, "diffs": [], "tags": sorted(set(tags)), "nontrivial": len(ref[0]) >= 3, "sig": common.case_hash(case)}
+    return {"fails": fails, "diffs": diffs, "tags": sorted(set(tags)), "nontrivial": len(ref[0]) >= 3, "sig": common.case_hash(case)}
